@@ -6,6 +6,7 @@ import ast
 from ..absint import Const, Obj, Tup, explore, vkey
 from ..core import Unrecognised
 from ..repo import chain, params, src, strip_docstring, calls
+from ..localroles import rename, discover, by_roles, cli_main, name_of, unique, calls_to, assigned_names
 from ..tables import Bool, check_table, SKIP
 
 
@@ -129,7 +130,7 @@ def _r1_output(repo, report, rule):
     sets = [src(n) for n in ast.walk(do) if isinstance(n, ast.Assign) and isinstance(n.targets[0], ast.Subscript) and chain(n.targets[0].value) == "kwargs"]
     report.ob(rule, "FileOpener.dnaio_open forwards the format keywords", ok and sets == ["kwargs['opener'] = self.xopen"], facts={"call": src(cs[0])[:100] if cs else None, "modifies": sets}, expected="only 'opener' is added", loc=repo.loc(do))
     # qualities come from the input format, identically for both runners
-    m = repo.func("cli", "main")
+    m = cli_main(repo)
     of = [x for x in calls(m) if chain(x.func) == "OutputFiles"]
     kw = {k.arg: src(k.value) for k in of[0].keywords} if of else {}
     ok = kw.get("qualities") == "runner.input_file_format().has_qualities()" and kw.get("proxied") == "cores > 1"
@@ -218,7 +219,7 @@ def r2_fasta(repo, report):
 
 
 def r4_interleaved(repo, report):
-    m = repo.func("cli", "main")
+    m = cli_main(repo)
     d = [n for n in ast.walk(m) if isinstance(n, ast.Assign) and chain(n.targets[0]) == "is_interleaved_input"]
     ok = len(d) == 1 and src(d[0].value) == "args.interleaved and len(args.inputs) == 1"
     mk = [x for x in calls(m) if chain(x.func) == "make_input_paths"]
